@@ -304,6 +304,26 @@ def run_case(case, rng):
                             continue
                         if got_r.shape != want_r.shape or np.abs(got_r - want_r).max() > 1e-12:
                             viol.append((f"ptrace-pure:{nm_}", f"ptrace(sel={sel_}) of a {nm_} with complex amplitudes on {dims} ({fmt_}) is not the reduced density matrix of the state"))
+        # operator-kets and operator-bras of a generic (non-Hermitian) operator: the partial trace of the vectorised operator is
+        # the vectorised partial trace
+        if k >= 2 and n <= 36:
+            for sel_ in case["sels"][:2]:
+                keep_ = sorted(set(int(x) for x in (sel_ if isinstance(sel_, (list, tuple)) else [sel_])))
+                if not keep_ or int(np.prod([dims[i] for i in keep_])) == 1:
+                    continue
+                want_x = np_ptrace(M, dims, keep_)
+                for nm_, mk_ in (("operator-ket", lambda q_: qutip.operator_to_vector(q_)), ("operator-bra", lambda q_: qutip.operator_to_vector(q_).dag())):
+                    for fmt_ in ("dense", "csr"):
+                        try:
+                            got_v = mk_(Mq.to(fmt_)).ptrace(keep_)
+                            back = qutip.vector_to_operator(got_v if got_v.type == "operator-ket" else got_v.dag()).full()
+                        except Exception as e:
+                            viol.append(("ptrace-vectorised-raises", f"ptrace of an {nm_} on {dims}, sel={keep_}: {type(e).__name__}: {e}"[:200]))
+                            continue
+                        if got_v.type != nm_:
+                            viol.append((f"ptrace-vectorised-type:{nm_}", f"ptrace of an {nm_} returns a {got_v.type}"))
+                        elif back.shape != want_x.shape or np.abs(back - want_x).max() > 1e-9:
+                            viol.append((f"ptrace-vectorised:{nm_}", f"ptrace(sel={keep_}) of the {nm_} of a non-Hermitian operator on {dims} ({fmt_}) is not the {nm_} of its partial trace"))
         # partial transpose
         mask = case["mask"]
         pt = qutip.partial_transpose(Mq, mask)
